@@ -24,6 +24,35 @@ fn main() {
     let tier = get("--tier", "quick");
     let out = get("--out", "/tmp/fh-out");
     let thorough = tier == "thorough";
+    // hang watchdog: a library call (or a generator) that makes no progress for FH_HANG_SECS seconds is reported with
+    // the scenario being executed (<out>/hang.txt) and the process exits with status 3
+    {
+        let out = out.clone();
+        let limit: u64 = std::env::var("FH_HANG_SECS").ok().and_then(|v| v.parse().ok()).unwrap_or(120);
+        std::thread::spawn(move || {
+            use std::sync::atomic::Ordering;
+            let mut last = util::PROGRESS.load(Ordering::Relaxed);
+            let mut idle = 0u64;
+            loop {
+                std::thread::sleep(std::time::Duration::from_secs(1));
+                let now = util::PROGRESS.load(Ordering::Relaxed);
+                if now != last {
+                    last = now;
+                    idle = 0;
+                    continue;
+                }
+                idle += 1;
+                let lim = if util::GENERATING.load(Ordering::Relaxed) { limit * 3 } else { limit };
+                if idle >= lim {
+                    let cur = util::CURRENT.lock().map(|c| c.clone()).unwrap_or_default();
+                    let _ = std::fs::create_dir_all(&out);
+                    let _ = std::fs::write(format!("{}/hang.txt", out), cur.join("\n") + "\n");
+                    eprintln!("HANG: no progress for {} s; the scenario being executed is in {}/hang.txt", idle, out);
+                    std::process::exit(3);
+                }
+            }
+        });
+    }
     let run = |name: &str, gen: &dyn Fn(u64, bool, &mut util::Out) -> Vec<String>, exec: &mut dyn FnMut(&str, &mut util::Out) -> String| {
         let mut o = util::Out::new();
         let lines: Vec<String> = match args.iter().position(|a| a == "--in") {
@@ -41,7 +70,9 @@ fn main() {
                 v
             }
         };
+        util::GENERATING.store(false, std::sync::atomic::Ordering::Relaxed);
         for l in lines {
+            util::tick(&l);
             let a = match util::guarded(|| exec(&l, &mut o)) {
                 Ok(a) => a,
                 Err(e) => format!("HARNESS-PANIC {}", e.replace('\n', " ")),
